@@ -55,6 +55,9 @@ def _call_with_timeout(func: Callable[[], T], timeout_s: float) -> T:
     try:
         return future.result(timeout=timeout_s)
     except FutureTimeoutError as exc:
+        if future.done() and not future.cancelled() and future.exception() is exc:
+            # The operation itself raised TimeoutError; surface it unchanged.
+            raise
         future.cancel()
         executor.shutdown(wait=False, cancel_futures=True)
         raise TimeoutError(f"Attempt exceeded {timeout_s} seconds.") from exc
